@@ -427,10 +427,185 @@ def lay5(ctx, c):
             c.undecided("get_binary_array:%s:digits" % name, "byte-construction-shape-unknown", "", repo.loc(f, node))
         else:
             c.ok("get_binary_array:%s:digits" % name, "byte = digits i, i+1 base 16", repo.loc(f, node))
+    # the loop over the statements visits all of them: an early exit drops the tail of the program from the image while the
+    # address pass has laid it out
+    for n in ast.walk(f.node):
+        if isinstance(n, ast.For) and "statements" in U(n.iter):
+            inner = [x for x in ast.walk(n) if isinstance(x, ast.For) and x is not n]
+            exits = [x for x in ast.walk(n) if isinstance(x, (ast.Break, ast.Return)) and not any(x in list(ast.walk(i)) for i in inner)]
+            sliced = isinstance(n.iter, ast.Subscript) or (isinstance(n.iter, ast.Call) and U(n.iter.func) in ("itertools.takewhile", "takewhile", "itertools.islice", "islice"))
+            if exits:
+                c.finding("get_binary_array:statement-loop", "early exit from the loop over the statements",
+                          "get_binary_array leaves the loop over the statements early (%s): the statements after that point have addresses and sizes in the listing "
+                          "but no bytes in the image" % U(exits[0]), repo.loc(f, exits[0]))
+            elif sliced:
+                c.finding("get_binary_array:statement-loop", "only part of the statements is emitted",
+                          "get_binary_array iterates over %s, not over all statements" % U(n.iter), repo.loc(f, n))
+            else:
+                c.ok("get_binary_array:statement-loop", "no early exit", repo.loc(f, n))
     s = repo.method("Statement", "__str__")
     seq = re.findall(r"code_pkg\.(\w+)\.hex\(\)", U(s.node))
     c.check(seq[:3] == ["op_code", "post_byte", "additional"], "Statement.__str__:order", "listing shows op_code, post_byte, additional", "listing order %s" % seq[:3],
             "the listing concatenates %s" % seq[:3], repo.loc(s, s.node))
 
 
-RULES = {"WID-6": wid6, "WID-1": wid1, "WID-3": wid3, "WID-5": wid5, "LAY-5": lay5}
+EAM = "ExplicitAddressingMode."
+LITERALS = [  # (constructor argument, magnitude, negative, what)
+    ("$12", 0x12, False, "two-digit hex"), ("$1234", 0x1234, False, "four-digit hex"), ("$0012", 0x12, False, "padded hex"),
+    ("%00010010", 0x12, False, "8-bit binary"), ("%0001001000110100", 0x1234, False, "16-bit binary"),
+    ("18", 18, False, "small decimal"), ("300", 300, False, "large decimal"), ("'A", 65, False, "character"),
+    ("-5", 5, True, "negative decimal"), ("-300", 300, True, "large negative decimal"),
+    (0, 0, False, "integer 0"), (18, 18, False, "small integer"), (300, 300, False, "large integer"), (-5, 5, True, "negative integer"),
+]
+
+
+def fold_constructor(ctx, cls, args):
+    """fold <cls>.__init__ (helpers inlined, the super().__init__ call folded through the base class) over constant arguments;
+    returns the final environment (self.<attr> -> value), raises Raised/NotConst"""
+    from ..inline import flatten
+    from ..consteval import fold_body, Raised
+    repo = ctx.repo
+    def build():
+        init = repo.method(cls, "__init__", inherited=False)
+        return init, body_without_doc(flatten(repo, init, depth=2))
+    init, body = ctx.memo(("flat-init", cls), build)
+    params = [p for p in init.params if p != "self"]
+    defaults = init.node.args.defaults
+    env = dict(ctx.env)
+    for p_, d_ in zip(params[len(params) - len(defaults):], defaults):
+        env[p_] = fold(d_, ctx.env)
+    env.update(args)
+    for st in body:
+        final = {}
+        if isinstance(st, ast.Expr) and isinstance(st.value, ast.Call) and U(st.value.func) in ("super().__init__", "Value.__init__", "super(%s, self).__init__" % cls):
+            call = st.value
+            bases = [b for b in repo.ancestors(cls) if b in repo.classes and "__init__" in repo.cls(b).methods and b != cls]
+            if not bases:
+                raise NotConst("no base constructor")
+            sub = fold_constructor_env(ctx, bases[0], call, env)
+            env.update({k: v for k, v in sub.items() if k.startswith("self.")})
+            continue
+        done = [False]
+        marker = object()
+        r = fold_body([st, ast.Return(value=ast.Constant(value="__fell_through__"))], env, final=final)
+        env = final
+        if r != "__fell_through__":
+            break
+    return env
+
+
+def fold_constructor_env(ctx, base, call, env):
+    repo = ctx.repo
+    init = repo.method(base, "__init__", inherited=False)
+    params = [p for p in init.params if p != "self"]
+    args = {}
+    pos = call.args[1:] if U(call.func).startswith("Value.") else call.args
+    for p_, a in zip(params, pos):
+        args[p_] = fold(a, env)
+    for k in call.keywords:
+        if k.arg:
+            args[k.arg] = fold(k.value, env)
+    return fold_constructor(ctx, base, args)
+
+
+def wid8(ctx, c):
+    """WID-8 the NumericValue constructor folded as a whole for every literal kind x width hint x addressing prefix:
+    magnitude and sign, a prefix is never overridden by the spelling, a width hint given by the instruction is kept."""
+    from ..consteval import Raised
+    repo = ctx.repo
+    init = repo.method(NV, "__init__", inherited=False)
+    where = repo.loc(init, init.node)
+    env = ctx.env
+    need = ["NONE", "DIRECT", "EXTENDED", "IMMEDIATE", "EXPLICIT_DIRECT", "EXPLICIT_EXTENDED"]
+    if any(EAM + k not in env for k in need):
+        c.undecided("ExplicitAddressingMode", "members-not-foldable", "", where)
+        return
+    M = {k: env[EAM + k] for k in need}
+    dirs = {M["DIRECT"], M["EXPLICIT_DIRECT"]}
+    mode_param = "mode" if "mode" in init.params else None
+    hint_param = "size_hint" if "size_hint" in init.params else None
+    if not mode_param or not hint_param or "value" not in init.params:
+        c.undecided(NV + ".__init__", "parameters-not-recognised", str(init.params), where)
+        return
+    n = 0
+    undec = {}
+    for lit, mag, neg, what in LITERALS:
+        hints = [None, 2, 4] + ([0] if lit == 0 else [])
+        for hint in hints:
+            for mname in need:
+                site = "%s(%r, size_hint=%s, mode=%s)" % (NV, lit, hint, mname)
+                try:
+                    out = fold_constructor(ctx, NV, {"value": lit, hint_param: hint, mode_param: M[mname]})
+                except Raised as e:
+                    c.finding("%s:%s" % (what, mname), "rejected", "%s raises %s for a valid %s literal" % (site, e.name, what), where)
+                    continue
+                except NotConst as e:
+                    undec.setdefault(str(e), site)
+                    continue
+                n += 1
+                got = (out.get("self.int"), bool(out.get("self.negative")))
+                c.check(got == (mag, neg), "%s:value" % what, "magnitude %d negative %s" % (mag, neg), "magnitude %s negative %s (expected %d, %s)" % (got[0], got[1], mag, neg),
+                        "%s yields magnitude %s negative=%s; the literal means %s%d" % (site, got[0], got[1], "-" if neg else "", mag), where)
+                omode, ohint = out.get("self.explict_addressing_mode"), out.get("self.size_hint")
+                if mname == "EXPLICIT_EXTENDED":
+                    c.check(omode not in dirs and omode != M["IMMEDIATE"] and ohint == 4, "%s:>" % what, "> keeps extended addressing, 16-bit field",
+                            "after > the value is %s with width hint %s" % ("direct" if omode in dirs else "mode %s" % omode, ohint),
+                            "%s: an operand written with > comes out %s with width hint %s, so the explicit extended prefix is overridden by the spelling of the %s"
+                            % (site, "direct" if omode in dirs else "as mode %s" % omode, ohint, what), where)
+                elif mname == "EXPLICIT_DIRECT":
+                    c.check(omode in dirs, "%s:<" % what, "< keeps direct addressing", "after < the value has mode %s" % omode,
+                            "%s: an operand written with < comes out with mode %s, not direct" % (site, omode), where)
+                elif mname == "IMMEDIATE":
+                    c.check(omode == M["IMMEDIATE"], "%s:#" % what, "# stays immediate", "after # the value has mode %s" % omode,
+                            "%s: an immediate operand comes out with mode %s" % (site, omode), where)
+                if hint is not None and mname not in ("EXTENDED", "EXPLICIT_EXTENDED"):
+                    c.check(ohint == hint, "%s:hint" % what, "the instruction's width hint is kept", "width hint %s becomes %s" % (hint, ohint),
+                            "%s: the width the instruction asked for (%s hex digits) is replaced by %s because of the spelling of the %s" % (site, hint, ohint, what), where)
+    for lit, what in (("65536", "decimal above 65535"), ("70000", "decimal above 65535"), ("$12345", "hex of five digits"), ("%101", "binary of 3 bits"),
+                      ("%010101010", "binary of 9 bits"), ("-32769", "decimal below -32768"), ("-70000", "decimal below -32768"), (65536, "integer above 65535")):
+        accepted = []
+        for hint in (None, 2, 4):
+            for mname in need:
+                site = "%s(%r, size_hint=%s, mode=%s)" % (NV, lit, hint, mname)
+                try:
+                    out = fold_constructor(ctx, NV, {"value": lit, hint_param: hint, mode_param: M[mname]})
+                except Raised as e:
+                    n += 1
+                    continue
+                except NotConst as e:
+                    undec.setdefault(str(e), site)
+                    continue
+                n += 1
+                accepted.append((site, out.get("self.int")))
+        if accepted:
+            c.finding("%r:rejected" % (lit,), "a %s is accepted" % what,
+                      "%s is accepted (magnitude %s; %d of 18 hint/prefix combinations accept it): a %s does not fit 16 bits / is not a byte or word pattern and "
+                      "would be encoded as something else" % (accepted[0][0], accepted[0][1], len(accepted), what), where)
+        else:
+            c.ok("%r:rejected" % (lit,), "rejected under every hint and prefix", where)
+    # words that are symbol names must not read as numbers: the value cascade tries NumericValue before SymbolValue
+    for word in ("DECH", "ABH", "BH", "FACE", "BEEF", "CAFEH", "A1H", "X", "LOOP", "A@B", "HEX", "OB", "B1", "D0", "O17", "Q"):
+        accepted = []
+        for mname in ("NONE", "EXTENDED"):
+            try:
+                out = fold_constructor(ctx, NV, {"value": word, hint_param: None, mode_param: M[mname]})
+            except Raised:
+                n += 1
+                continue
+            except NotConst as e:
+                undec.setdefault(str(e), "%s(%r)" % (NV, word))
+                continue
+            n += 1
+            accepted.append(out.get("self.int"))
+        if accepted:
+            c.finding("%r:not-a-number" % word, "a symbol name is read as the number %s" % accepted[0],
+                      "NumericValue(%r) is accepted as the number %s: %s is a legal label, and Value.create_from_str tries NumericValue before SymbolValue, so a reference to the "
+                      "label %s assembles as a constant instead of the label's address" % (word, accepted[0], word, word), where)
+        else:
+            c.ok("%r:not-a-number" % word, "rejected, left to SymbolValue", where)
+    for why, site in undec.items():
+        c.undecided(NV + ".__init__", "constructor-not-foldable", "%s at %s" % (why, site), where)
+    c.ok(NV + ".__init__", "%d constructor evaluations" % n, where, nontrivial=False)
+
+
+RULES = {"WID-8": wid8, "WID-6": wid6, "WID-1": wid1, "WID-3": wid3, "WID-5": wid5, "LAY-5": lay5}
